@@ -8,10 +8,12 @@ pub mod vsrc;
 #[path = "../../common/stubs.rs"]
 pub mod stubs;
 
+pub mod c07;
 pub mod c20;
 
 pub fn tables() -> Vec<(&'static str, vsrc::NativeFn)> {
     let mut t = Vec::new();
+    t.extend(c07::table());
     t.extend(c20::table());
     t
 }
